@@ -169,6 +169,7 @@ func FuzzWriteMap(f *testing.F) {
 	f.Add("k", "v", "a.b", "x\"y\\z\n", "a.c", "é")
 	f.Add("a", "", "b.c.d", "\x00\x1f\x7f", "b.c.e", " ")
 	f.Add("a\"b", "1", "a\\b.c", "2", "z", "\U0001F600")
+	f.Add("h", `<b>\u003cb\u003e & \u0026</b>`, "e", `\n\"\\`, "amp", "&amp;&lt;")
 	f.Fuzz(func(t *testing.T, k1, v1, k2, v2, k3, v3 string) {
 		es := []KV{{K: k1, V: v1}}
 		if k2 != "" {
